@@ -536,7 +536,7 @@ double Find_Root(std::function<double(double)> func, double xLeft, double xRight
 		std::cerr << "Error in libphysica::Find_Root(): Function returns nan at the brackets." << std::endl;
 		std::exit(EXIT_FAILURE);
 	}
-	else if(fLeft * fRight >= 0.0)
+	else if(Sign(fLeft) * Sign(fRight) >= 0)
 	{
 		if(fLeft == 0)
 			return xLeft;
@@ -564,7 +564,15 @@ double Find_Root(std::function<double(double)> func, double xLeft, double xRight
 
 			double f3 = func(x3);
 			// New point
-			double x4 = x3 + (x3 - x1) * Sign(f1 - f2) * f3 / sqrt(f3 * f3 - f1 * f2);
+			// Only the ratios of the three function values enter. Dividing by the largest keeps the products inside the range of a double.
+			double scale = std::max(fabs(f3), std::max(fabs(f1), fabs(f2)));
+			double g1	 = f1 / scale;
+			double g2	 = f2 / scale;
+			double g3	 = f3 / scale;
+			double x4	 = x3 + (x3 - x1) * Sign(g1 - g2) * g3 / sqrt(g3 * g3 - g1 * g2);
+			// Infinite function values leave nothing to interpolate with; the midpoint still halves the bracket.
+			if(std::isnan(x4))
+				x4 = x3;
 			// In exact arithmetic x4 lies strictly inside the bracket. Rounding may push it past an end.
 			x4 = std::max(std::min(x1, x2), std::min(std::max(x1, x2), x4));
 			result	  = x4;
